@@ -426,3 +426,31 @@ def write_hostile_script(path, seed, executions):
         for ln in lines:
             f.write(json.dumps(ln) + "\n")
     return len(lines)
+
+
+def write_reload_script(path, seed, executions):
+    """Conversations for the allocation-failure enumeration: several records of another source in every
+    family, full loads, incremental updates and atomic reloads (Cache Reset, session change), no cache misbehaviour."""
+    rnd = random.Random(seed * 31 + 5)
+    lines = []
+    for _ in range(executions):
+        c = Cache(rnd, 1)
+        cfg = {"refresh": "30", "expire": "7200", "retry": "1", "mode": "min_max",
+               "others": [rec4(rnd), rec4(rnd), rec4(rnd), rec6(rnd), rec6(rnd), reck(rnd), reck(rnd)], "t0": 0}
+        lines.append({"new": cfg})
+        lines.append({"ex": {"alts": c.alts()}})
+        c.mutate()
+        lines.append({"ex": {"alts": c.alts()}})
+        lines.append({"ex": {"alts": [{"q": "any", "items": [{"f": {"t": "cache_reset", "v": c.v}}]}]}})
+        c.mutate()
+        for _ in range(3):
+            lines.append({"ex": {"alts": c.alts()}})
+        c.restart()
+        c.mutate()
+        for _ in range(4):
+            lines.append({"ex": {"alts": c.alts()}})
+        lines.append({"run": True})
+    with open(path, "w") as f:
+        for ln in lines:
+            f.write(json.dumps(ln) + "\n")
+    return len(lines)
